@@ -12,16 +12,47 @@ def insertAt (l : List Nat) (p : Nat) (xs : List Nat) : List Nat := l.take p ++ 
 def eraseRange (l : List Nat) (f t : Nat) : List Nat := l.take f ++ l.drop t
 def resize (l : List Nat) (n x : Nat) : List Nat := l.take n ++ List.replicate (n - l.length) x
 
-/-- lexicographic `<` ([alg.lex.comparison]) -/
+/-- `operator==` of a sequence container ([container.reqmts]): equal sizes and `equal(a.begin(), a.end(), b.begin())`
+    with the element's `operator==` (`eq`) -/
+def eqList (eq : Nat → Nat → Bool) : List Nat → List Nat → Bool
+  | [], [] => true
+  | x :: xs, y :: ys => eq x y && eqList eq xs ys
+  | _, _ => false
+
+/-- `operator<=>` of `std::vector` ([vector.syn], [container.opt.reqmts]): `lexicographical_compare_three_way` with
+    *synth-three-way* ([expos.only.entity]) — for an element type that only has `operator<` (`lt`):
+    `x < y` → less, `y < x` → greater, otherwise equivalent and the comparison goes on; a proper prefix is less.
+    The element's `operator==` plays no part. -/
+def cmp3 (lt : Nat → Nat → Bool) : List Nat → List Nat → Ordering
+  | [], [] => .eq
+  | [], _ :: _ => .lt
+  | _ :: _, [] => .gt
+  | x :: xs, y :: ys => if lt x y then .lt else if lt y x then .gt else cmp3 lt xs ys
+
+/-- `== != < <= > >=` of two sequences whose element type has `operator<` = `lt` and `operator==` = `eq`:
+    `a == b`, its negation, and `(a <=> b) < 0`, `<= 0`, `> 0`, `>= 0`.  Nothing relates `lt` and `eq`. -/
+def rels (lt eq : Nat → Nat → Bool) (a b : List Nat) : List Bool :=
+  let c := cmp3 lt a b
+  [eqList eq a b, !(eqList eq a b), c == .lt, c != .gt, c == .gt, c != .lt]
+
+/-- lexicographic `<` for an element type whose `<` is the order of the values ([alg.lex.comparison]) -/
 def ltb : List Nat → List Nat → Bool
   | [], [] => false
   | [], _ :: _ => true
   | _ :: _, [] => false
   | x :: xs, y :: ys => if x < y then true else if y < x then false else ltb xs ys
 
-/-- `== != < <= > >=` -/
-def rels (a b : List Nat) : List Bool :=
+/-- the six results for an element type whose `==` is the equality of the values and whose `<` is their (total)
+    order: there — and only there, see `rels_total` / `rels_kp_not_total` — `a <= b` is also `a < b || a == b` -/
+def relsTotal (a b : List Nat) : List Bool :=
   [a == b, !(a == b), ltb a b, ltb a b || a == b, ltb b a, ltb b a || a == b]
+
+/-- the value element `i` has before the call, handed to `f`; nothing happens for an index that is not an element
+    (excluded by `valid1`) -/
+def withElem (l : List Nat) (i : Nat) (f : Nat → List Nat × Out) : List Nat × Out :=
+  match l[i]? with
+  | some x => f x
+  | none => (l, .unit)
 
 /-- single-object operations of a sequence container: new value and result -/
 def apply1 (cap : Nat) (op : Op) (l : List Nat) : List Nat × Out :=
@@ -46,6 +77,15 @@ def apply1 (cap : Nat) (op : Op) (l : List Nat) : List Nat × Out :=
   | .eraseIf m r => (l.filter (fun v => !(modPred m r v)), .count (l.countP (modPred m r)))
   | .tryPush _ x => if l.length = cap then (l, .ptr none) else (l ++ [x], .ptr (some x))
   | .unchecked _ x => (l ++ [x], .ref x)
+  -- the argument refers to an element of the sequence itself: the standard requires the result of the same call with
+  -- a copy of that element made before the call ([sequence.reqmts]: no "not a reference into a" for these members)
+  | .pushA _ i => withElem l i fun x => (l ++ [x], .unit)
+  | .pushTop _ => withElem l (l.length - 1) fun x => (l ++ [x], .unit)
+  | .insertA _ pos i => withElem l i fun x => (insertAt l pos [x], .it pos)
+  | .insertFillA pos n i => withElem l i fun x => (insertAt l pos (List.replicate n x), .it pos)
+  | .resizeValA n i => withElem l i fun x => (resize l n x, .unit)
+  | .tryPushA _ i => withElem l i fun x => if l.length = cap then (l, .ptr none) else (l ++ [x], .ptr (some x))
+  | .uncheckedA _ i => withElem l i fun x => (l ++ [x], .ref x)
   | _ => (l, .unit)
 
 /-- operations whose result does not depend on the old value of the object -/
@@ -63,9 +103,10 @@ abbrev SObj := Option (List Nat)
 structure SSys where
   cap : Nat
   objs : List SObj
+  kind : Kind := .triv     -- the element type: only its `operator<` / `operator==` matter to the spec (`cmp`)
   deriving Repr, Inhabited
 
-def SSys.init (cap : Nat) : SSys := ⟨cap, [some [], some [], some [], some []]⟩
+def SSys.init (cap : Nat) (kind : Kind := .triv) : SSys := ⟨cap, [some [], some [], some [], some []], kind⟩
 
 def SSys.setObj (s : SSys) (k : Nat) (d : SObj) : SSys := { s with objs := s.objs.set k d }
 
@@ -80,7 +121,7 @@ def step (s : SSys) (k : Nat) (op : Op) : SSys × Option Out :=
   | .swap j => ((s.setObj k (getObj s j)).setObj j (getObj s k), some .unit)
   | .cmp j =>
     match getObj s k, getObj s j with
-    | some a, some b => (s, some (.rels (rels a b)))
+    | some a, some b => (s, some (.rels (rels (ltOf s.kind) (eqOf s.kind) a b)))
     | _, _ => (s, none)
   | op =>
     match getObj s k with
